@@ -7,6 +7,8 @@ import (
 	"os"
 	"os/exec"
 	"path/filepath"
+	"regexp"
+	"sort"
 	"strings"
 	"sync"
 	"time"
@@ -20,6 +22,95 @@ type SolveResult struct {
 	Values  map[string]string
 	File    string
 	All     map[string]string // per-solver status (thorough cross-check)
+}
+
+// ScriptLight abstracts every quantified subformula by a propositional atom (equal formulas get the
+// same atom; bound-variable names are canonical, so textual equality is alpha-equivalence here).
+// Any proof of the abstraction is a proof of the query: the abstraction only forgets what the
+// quantified formulas mean. It decides at once the many goals that follow by propositional and
+// array/bit-vector reasoning from facts that are already stated.
+func (vc *VC) ScriptLight(o *Obligation) (string, bool) {
+	full := vc.Script(o, false, nil)
+	lines := strings.Split(full, "\n")
+	atoms := map[string]string{}
+	var order []string
+	abstract := func(l string) string {
+		var sb strings.Builder
+		i := 0
+		for i < len(l) {
+			if strings.HasPrefix(l[i:], "(forall ") || strings.HasPrefix(l[i:], "(exists ") {
+				depth := 0
+				j := i
+				for ; j < len(l); j++ {
+					if l[j] == '(' {
+						depth++
+					} else if l[j] == ')' {
+						depth--
+						if depth == 0 {
+							break
+						}
+					}
+				}
+				txt := l[i : j+1]
+				a, ok := atoms[txt]
+				if !ok {
+					a = fmt.Sprintf("Q!abs%d", len(atoms))
+					atoms[txt] = a
+					order = append(order, a)
+				}
+				sb.WriteString(a)
+				i = j + 1
+				continue
+			}
+			sb.WriteByte(l[i])
+			i++
+		}
+		return sb.String()
+	}
+	var body []string
+	for _, l := range lines {
+		if strings.HasPrefix(l, "(assert ") || strings.HasPrefix(l, "(define-fun ") {
+			l = abstract(l)
+		}
+		body = append(body, l)
+	}
+	if len(atoms) == 0 {
+		return full, false
+	}
+	// declare the atoms right after set-logic
+	var out []string
+	for _, l := range body {
+		out = append(out, l)
+		if strings.HasPrefix(l, "(set-logic") {
+			for _, a := range order {
+				out = append(out, "(declare-const "+a+" Bool)")
+			}
+		}
+	}
+	return strings.Join(out, "\n"), true
+}
+
+// ScriptWithout is the query without the assumptions of the given kinds (model axioms tagged ;@kind).
+// Dropping premises is sound; it keeps the quantifier instantiation of the solvers focused.
+func (vc *VC) ScriptWithout(o *Obligation, kinds ...string) (string, bool) {
+	full := vc.Script(o, false, nil)
+	lines := strings.Split(full, "\n")
+	var out []string
+	dropped := false
+	for _, l := range lines {
+		skip := false
+		for _, k := range kinds {
+			if strings.HasSuffix(l, ";@"+k) {
+				skip = true
+			}
+		}
+		if skip {
+			dropped = true
+			continue
+		}
+		out = append(out, l)
+	}
+	return strings.Join(out, "\n"), dropped
 }
 
 func (vc *VC) Script(o *Obligation, forCVC5 bool, modelVars []string) string {
@@ -133,24 +224,78 @@ func Solve(vc *VC, o *Obligation, dir string, timeout int, modelVars []string, c
 	if err := os.WriteFile(fname, []byte(script), 0644); err != nil {
 		return &SolveResult{Status: "error", Output: err.Error()}
 	}
+	npname := fname
+	if np := stripPatterns(script); np != script {
+		npname = strings.TrimSuffix(fname, ".smt2") + ".nopat.smt2"
+		if os.WriteFile(npname, []byte(np), 0644) != nil {
+			npname = fname
+		}
+	}
 	if o.WantSat && timeout > 6 {
 		timeout = 6
 	}
 	usesSets := strings.Contains(script, "(Set Int)") || strings.Contains(script, "set.")
+	if !o.WantSat && !usesSets {
+		if light, dropped := vc.ScriptLight(o); dropped {
+			lf := strings.TrimSuffix(fname, ".smt2") + ".light.smt2"
+			if os.WriteFile(lf, []byte(light), 0644) == nil {
+				t0 := time.Now()
+				cmd := exec.Command("z3-new", "-T:4", lf)
+				var buf bytes.Buffer
+				cmd.Stdout = &buf
+				cmd.Stderr = &buf
+				_ = cmd.Run()
+				if parseStatus(buf.String()) == "unsat" {
+					return &SolveResult{Status: "unsat", Solver: "z3-new(qf-slice)", Seconds: time.Since(t0).Seconds(), Output: buf.String(), File: lf, All: map[string]string{"z3-new(qf-slice)": "unsat"}}
+				}
+			}
+		}
+	}
 	ctx, cancel := context.WithCancel(context.Background())
 	defer cancel()
 	type ans struct {
 		r *SolveResult
 	}
-	ch := make(chan ans, len(solvers))
+	ch := make(chan ans, len(solvers)+8)
 	n := 0
+	// sound premise slices raced alongside the full query (an unsat of a slice is an unsat of the query)
+	if !o.WantSat && !usesSets {
+		for vi, kinds := range [][]string{{"heaptyping", "mapwf"}, {"heaptyping"}, {"mapwf"}} {
+			sl, dropped := vc.ScriptWithout(o, kinds...)
+			if !dropped {
+				continue
+			}
+			sf := strings.TrimSuffix(fname, ".smt2") + fmt.Sprintf(".slice%d.smt2", vi)
+			if os.WriteFile(sf, []byte(sl), 0644) != nil {
+				continue
+			}
+			n++
+			go func(sf string, vi int) {
+				t0 := time.Now()
+				cmd := exec.CommandContext(ctx, "z3-new", fmt.Sprintf("-T:%d", timeout), sf)
+				var buf bytes.Buffer
+				cmd.Stdout = &buf
+				cmd.Stderr = &buf
+				_ = cmd.Run()
+				st := parseStatus(buf.String())
+				if st != "unsat" {
+					st = "cancelled" // only a proof counts for a slice
+				}
+				ch <- ans{&SolveResult{Status: st, Solver: fmt.Sprintf("z3-new(slice%d)", vi), Seconds: time.Since(t0).Seconds(), Output: buf.String(), File: sf}}
+			}(sf, vi)
+		}
+	}
 	for _, s := range solvers {
 		if usesSets && !s.sets {
 			continue
 		}
 		n++
 		go func(s solverSpec) {
-			args := s.args(fname, timeout)
+			f := fname
+			if s.name == "cvc5" {
+				f = npname // cvc5 selects its own triggers
+			}
+			args := s.args(f, timeout)
 			t0 := time.Now()
 			cmd := exec.CommandContext(ctx, args[0], args[1:]...)
 			var buf bytes.Buffer
@@ -168,6 +313,28 @@ func Solve(vc *VC, o *Obligation, dir string, timeout int, modelVars []string, c
 			}
 			ch <- ans{r}
 		}(s)
+	}
+	if npname != fname {
+		for _, bin := range []string{"z3-new", "z3"} {
+			n++
+			go func(bin string) {
+				t0 := time.Now()
+				cmd := exec.CommandContext(ctx, bin, fmt.Sprintf("-T:%d", timeout), npname)
+				var buf bytes.Buffer
+				cmd.Stdout = &buf
+				cmd.Stderr = &buf
+				_ = cmd.Run()
+				st := parseStatus(buf.String())
+				if ctx.Err() != nil && st != "sat" && st != "unsat" {
+					st = "cancelled"
+				}
+				r := &SolveResult{Status: st, Solver: bin + "(auto-triggers)", Seconds: time.Since(t0).Seconds(), Output: buf.String(), File: npname}
+				if st == "sat" {
+					r.Values = parseValues(buf.String())
+				}
+				ch <- ans{r}
+			}(bin)
+		}
 	}
 	var best *SolveResult
 	all := map[string]string{}
@@ -193,7 +360,197 @@ func Solve(vc *VC, o *Obligation, dir string, timeout int, modelVars []string, c
 		best = &SolveResult{Status: "error", Output: "no solver applicable", File: fname}
 	}
 	best.All = all
+	if !o.WantSat && !usesSets && best.Status != "unsat" && best.Status != "sat" {
+		if r := rescue(vc, o, fname, 60*time.Second); r != nil {
+			r.All = all
+			r.All["z3-new(relevance)"] = "unsat"
+			return r
+		}
+	}
 	return best
+}
+
+// stripPatterns removes (! body :pattern ...) annotations, leaving the solver's own trigger selection.
+func stripPatterns(src string) string {
+	if !strings.Contains(src, "(! ") {
+		return src
+	}
+	var sb strings.Builder
+	i := 0
+	for i < len(src) {
+		if strings.HasPrefix(src[i:], "(! ") {
+			// body s-expression
+			j := i + 3
+			start := j
+			if src[j] == '(' {
+				depth := 0
+				for ; j < len(src); j++ {
+					if src[j] == '(' {
+						depth++
+					} else if src[j] == ')' {
+						depth--
+						if depth == 0 {
+							j++
+							break
+						}
+					}
+				}
+			} else {
+				for j < len(src) && src[j] != ' ' && src[j] != ')' {
+					j++
+				}
+			}
+			body := src[start:j]
+			// skip attributes up to the closing paren of (! ...)
+			depth := 1
+			for ; j < len(src); j++ {
+				if src[j] == '(' {
+					depth++
+				} else if src[j] == ')' {
+					depth--
+					if depth == 0 {
+						j++
+						break
+					}
+				}
+			}
+			sb.WriteString(stripPatterns(body))
+			i = j
+			continue
+		}
+		sb.WriteByte(src[i])
+		i++
+	}
+	return sb.String()
+}
+
+var symRe = regexp.MustCompile(`[A-Za-z_][A-Za-z0-9_.$]*[!@][A-Za-z0-9_.!]+`)
+
+// rescue: relevance-guided premise selection. Quantified assumptions are ranked by the versioned
+// symbols they share with the goal (and, transitively, with already selected assumptions) and added
+// in growing batches; any unsat answer is a proof of the full query (premises are only dropped).
+func rescue(vc *VC, o *Obligation, fname string, budget time.Duration) *SolveResult {
+	full := vc.Script(o, false, nil)
+	lines := strings.Split(full, "\n")
+	n := len(lines)
+	var qidx []int
+	for i, l := range lines {
+		if i < n-4 && strings.HasPrefix(l, "(assert ") && (strings.Contains(l, "(forall ") || strings.Contains(l, "(exists ")) {
+			qidx = append(qidx, i)
+		}
+	}
+	if len(qidx) == 0 {
+		return nil
+	}
+	symsOf := func(l string) map[string]bool {
+		m := map[string]bool{}
+		for _, x := range symRe.FindAllString(l, -1) {
+			m[x] = true
+		}
+		return m
+	}
+	goalSyms := symsOf(lines[n-3] + lines[n-4])
+	// expand goal symbols through definitions once (define-fun name () ... body)
+	defs := map[string]string{}
+	for _, l := range lines {
+		if strings.HasPrefix(l, "(define-fun ") {
+			f := strings.Fields(l)
+			if len(f) > 1 {
+				defs[f[1]] = l
+			}
+		}
+	}
+	expand := func(m map[string]bool) {
+		for round := 0; round < 3; round++ {
+			for sname := range m {
+				if d, ok := defs[sname]; ok {
+					for x := range symsOf(d) {
+						m[x] = true
+					}
+				}
+			}
+		}
+	}
+	expand(goalSyms)
+	type cand struct {
+		idx   int
+		score float64
+		syms  map[string]bool
+	}
+	var cands []*cand
+	for _, i := range qidx {
+		cs := symsOf(lines[i])
+		expand(cs)
+		cands = append(cands, &cand{idx: i, syms: cs})
+	}
+	df := map[string]int{}
+	for _, c := range cands {
+		for x := range c.syms {
+			df[x]++
+		}
+	}
+	selected := map[int]bool{}
+	deadline := time.Now().Add(budget)
+	batch := 1
+	cur := goalSyms
+	for len(selected) < len(cands) && time.Now().Before(deadline) {
+		for _, c := range cands {
+			if selected[c.idx] {
+				continue
+			}
+			sh := 0.0
+			for x := range c.syms {
+				if cur[x] {
+					sh += 1.0 / float64(df[x])
+				}
+			}
+			c.score = sh / (1.0 + float64(len(lines[c.idx]))/4000.0)
+			if strings.HasSuffix(lines[c.idx], ";@heaptyping") || strings.HasSuffix(lines[c.idx], ";@mapwf") {
+				c.score *= 0.3
+			}
+		}
+		sort.SliceStable(cands, func(a, b int) bool { return cands[a].score > cands[b].score })
+		added := 0
+		for _, c := range cands {
+			if !selected[c.idx] && added < batch {
+				selected[c.idx] = true
+				added++
+				for x := range c.syms {
+					cur[x] = true
+				}
+			}
+		}
+		if len(selected) >= 6 {
+			batch = batch + (batch+1)/2
+		}
+		var out []string
+		for i, l := range lines {
+			isQ := false
+			for _, q := range qidx {
+				if q == i {
+					isQ = true
+				}
+			}
+			if isQ && !selected[i] {
+				continue
+			}
+			out = append(out, l)
+		}
+		rf := strings.TrimSuffix(fname, ".smt2") + ".rescue.smt2"
+		if os.WriteFile(rf, []byte(strings.Join(out, "\n")), 0644) != nil {
+			return nil
+		}
+		t0 := time.Now()
+		cmd := exec.Command("z3-new", "-T:3", rf)
+		var buf bytes.Buffer
+		cmd.Stdout = &buf
+		cmd.Stderr = &buf
+		_ = cmd.Run()
+		if parseStatus(buf.String()) == "unsat" {
+			return &SolveResult{Status: "unsat", Solver: fmt.Sprintf("z3-new(relevance %d/%d premises)", len(selected), len(cands)), Seconds: time.Since(t0).Seconds(), Output: buf.String(), File: rf, All: map[string]string{"z3-new(relevance)": "unsat"}}
+		}
+	}
+	return nil
 }
 
 func hashStr(s string) uint32 {
